@@ -34,7 +34,8 @@
 (*   - `typeset -fr a b` with several operands one of which is not a       *)
 (*     function (what happens to the others),                              *)
 (*   - truncating `>` on a file that another live descriptor writes        *)
-(*     (file offsets are out of scope here).                               *)
+(*     (file offsets are out of scope here),                               *)
+(*   - `unset v` while a local variable v of a function hides another one. *)
 (* Class "deep": more than MaxDepth nested calls (skipped and counted).    *)
 (*                                                                         *)
 (* Exit statuses the texts only call "non-zero" are the symbolic NZ (-1);  *)
@@ -49,9 +50,9 @@ EXTENDS Integers, Sequences, FiniteSets, TLC
 CONSTANTS MaxDepth,   \* bound on nested function calls
           Variant     \* "" = the specification; otherwise a named wrong variant
 
-Names == {"f", "g", "h"}
+Names == {"f", "g", "h", "v"}
 \* "in alphabetical order" (typeset.md, Printing functions)
-NameOrder == <<"f", "g", "h">>
+NameOrder == <<"f", "g", "h", "v">>
 NZ == -1
 
 (***************************************************************************)
@@ -69,7 +70,10 @@ NZ == -1
 (*   def  n b x i r n() { b; } r  (i = 1: n() ( b ) r; x spelling of n)    *)
 (*   unsetf a i     [command] unset -f a...   (i = 1: through `command`)   *)
 (*   mkro a         typeset -fr a...                                       *)
-(*   list x         typeset -fp | lsf  (x = "r": -frp, "nr": -fp +r)       *)
+(*   list x         typeset -fp | lsf  (x = "r": -frp, "nr": -fp +r,       *)
+(*                  "np": typeset -f, the -p may be omitted)               *)
+(*   unsetv n       unset n   (the variable; functions are another         *)
+(*                  namespace: functions.md, unset.md Compatibility)       *)
 (*   for  i b       for i in 1..i; do b; done                              *)
 (*   brk            break                                                  *)
 (*   sub b          ( b )                                                  *)
@@ -93,6 +97,7 @@ CDefX(n, b, x, i, r) == Cmd("def", n, <<>>, x, i, r, b)
 CUnset(a, i) == Cmd("unsetf", "", a, "", i, "", <<>>)
 CMkro(a) == Cmd("mkro", "", a, "", 0, "", <<>>)
 CList(x) == Cmd("list", "", <<>>, x, 0, "", <<>>)
+CUnsetV(n) == Cmd("unsetv", n, <<>>, "", 0, "", <<>>)
 CFor(i, b) == Cmd("for", "", <<>>, "", i, "", b)
 CBrk == Cmd("brk", "", <<>>, "", 0, "", <<>>)
 CSub(b) == Cmd("sub", "", <<>>, "", 0, "", b)
@@ -153,7 +158,7 @@ RECURSIVE TListFrom(_, _, _)
 TListFrom(T, filt, i) ==
   IF i > Len(NameOrder) THEN <<>>
   ELSE LET n == NameOrder[i]
-           sel == T[n].d /\ (filt = "" \/ (filt = "r") = T[n].ro)
+           sel == T[n].d /\ (filt \in {"", "np"} \/ (filt = "r") = T[n].ro)
            me == IF ~sel THEN <<>>
                  ELSE <<[k |-> "F", n |-> n]>> \o
                       (IF T[n].ro /\ Variant # "list_no_ro" THEN <<[k |-> "R", n |-> n]>> ELSE <<>>)
@@ -401,6 +406,10 @@ Exec1(S, c) ==
     [] c.k = "unsetf" -> UnsetF(S, c)
     [] c.k = "mkro" -> MakeReadonly(S, c)
     [] c.k = "list" -> [WriteAll(S, ListLines(TList(S.funs, c.x)), 1) EXCEPT !.st = 0]
+    \* unset n: the variable only ("POSIX allows the built-in to unset the same-named function
+    \* ... Yash does not do this"); what it does to a variable hidden by a local one is
+    \* "not portable" (unset.md) and left open here
+    [] c.k = "unsetv" -> IF Declared(S, c.n) # {} THEN Halt(S, "open") ELSE [S EXCEPT !.glob[c.n] = "U", !.st = 0]
     [] c.k = "for" ->
          [S EXCEPT !.stk = Append(@, Act("loop", c.b, [fd1 |-> "-", body |-> c.b, left |-> c.i - 1]))]
     [] c.k = "brk" ->
@@ -464,7 +473,9 @@ CmdText(c) ==
                       \o RedirText(c.r)
     [] c.k = "unsetf" -> (IF c.i = 1 THEN "command " ELSE "") \o "unset -f" \o Words(c.a, 1)
     [] c.k = "mkro" -> "typeset -fr" \o Words(c.a, 1)
-    [] c.k = "list" -> (CASE c.x = "r" -> "typeset -frp" [] c.x = "nr" -> "typeset -fp +r" [] OTHER -> "typeset -fp")
+    [] c.k = "unsetv" -> "unset " \o c.n
+    [] c.k = "list" -> (CASE c.x = "r" -> "typeset -frp" [] c.x = "nr" -> "typeset -fp +r" [] c.x = "np" -> "typeset -f"
+                          [] OTHER -> "typeset -fp")
                        \o " | lsf"
     [] c.k = "for" -> "for i in" \o Nums(c.i, 1) \o "; do " \o BodyText(c.b, 1) \o "; done"
     [] c.k = "brk" -> "break"
